@@ -143,7 +143,7 @@ pub fn run(out: &mut Out, thorough: bool, seed: u64, extra: &[String]) {
         match r.below(3) { 0 => bits.sort(), 1 => { bits.sort(); bits.reverse(); } _ => {} }
         let qs = ntt_primes(&mut r, n, &bits);
         if qs.len() != k { continue; }
-        let t = if directed { let tb = if ti < 3 { 28 + k } else { *r.pick(&[31usize, 40, 50, 59]) + k.min(1) - 1 }; hu::get_primes(2 * n as u64, tb.min(60), 1)[0].value() } else { match r.below(4) { 0 => 1u64 << r.range(1, 20), 1 => { let tb = (lg + 3).max(r.range(4, 40) as usize); hu::get_primes(2 * n as u64, tb, 1)[0].value() } 2 => 3, _ => r.range(2, 1 << 20) | 1 } };
+        let t = if directed { let tb = if ti < 3 { 28 + k } else { *r.pick(&[31usize, 40, 50, 59]) + k.min(1) - 1 }; match std::panic::catch_unwind(|| hu::get_primes(2 * n as u64, tb.min(60), 1)[0].value()) { Ok(t) => t, Err(_) => continue } } else { match r.below(4) { 0 => 1u64 << r.range(1, 20), 1 => { let tb = (lg + 3).max(r.range(4, 40) as usize); match (tb..=tb + 4).find_map(|b| std::panic::catch_unwind(|| hu::get_primes(2 * n as u64, b, 1)[0].value()).ok()) { Some(t) => t, None => continue } } 2 => 3, _ => r.range(2, 1 << 20) | 1 } };
         // every third chain ends in a prime that is 1 modulo t (t >= 3): q_last^-1 mod t = 1, the guarded fast paths of the BGV division are taken
         let mut qs = qs;
         if !directed && t >= 3 && r.chance(1, 3) { if let Some(p) = crate::ctx::prime_one_mod(n, t, 50, &qs) { let k1 = qs.len() - 1; qs[k1] = p; } }
